@@ -25,7 +25,7 @@ CHECK = dict(
           S("seq-asan", quick=600, thorough=600, workers=8, case_timeout=60)],
     rule=("a case = one (leaf set, code sequence[, map]) with all its queries; each (query, leaf) pair must be recorded exactly as often "
           "(0 or 1) as the closed-interval all-pairs scan says (point queries: the documented z-projected test; selfCollision: minus the "
-          "diagonal). distinct = distinct (tree shape, incidence matrix) outcomes per phase (2-D phases: distinct inputs); non-trivial = at "
+          "diagonal). distinct = distinct (tree shape, incidence matrix) outcomes per phase (2-D phases: distinct inputs; kd2d: distinct point multisets); non-trivial = at "
           "least one query meets some but not all leaves, so pruning decisions matter (radix phases: tree depth >= 2; pair phases: some but "
           "not all pairs are candidates)."),
     bounds=dict(
